@@ -42,7 +42,7 @@ Reset ==
     /\ q' = [b \in Boxes |-> <<>>]
     /\ ms' = [t \in Tasks |-> IF t \in Models THEN [IdleTask EXCEPT !.st = "uninit"] ELSE IdleTask]
     /\ sinkLog' = [s \in Sinks |-> <<>>]
-    /\ result' = ROk /\ inited' = {} /\ terminated' = FALSE
+    /\ result' = ROk /\ inited' = {} /\ terminated' = FALSE /\ panicked' = ""
     /\ vc' = [t \in Tasks |-> ZeroVC] /\ seen' = [m \in Models |-> {}] /\ handled' = <<>> /\ sent' = <<>>
     /\ exact' = Ev.exact
     /\ stage' = "run"
@@ -88,7 +88,7 @@ TOpStart ==
     /\ OpStart(Ev.m)
     /\ LET op == CurOp(Ev.m) IN
        /\ op.op = Ev.op
-       /\ op.op # "nop" => (op.port = Ev.port /\ op.prog = Ev.prog /\ ms[Ev.m].n + 1 = Ev.n)
+       /\ op.op \notin {"nop", "panic"} => (op.port = Ev.port /\ op.prog = Ev.prog /\ ms[Ev.m].n + 1 = Ev.n)
     /\ Keep
 
 TPush ==
@@ -132,7 +132,7 @@ SinkPush(t, i) == i \in 1..Len(ms[t].subs) /\ IsSink(ms[t].subs[i].tgt) /\ Push(
 
 Silent ==
     /\ Running
-    /\ \/ Quiesce
+    /\ \/ Quiesce \/ AbortPanic
        \/ OpDone("drv")
        \/ \E t \in Tasks, i \in 1..8 : SinkPush(t, i)
        \/ ~exact /\ \E m \in Models : Pop(m)
